@@ -13,7 +13,10 @@
 //! firewall; they run until they are parked on the target's entries (`computing_lock_guard`'s
 //! occupied branch, `exit_scc`); then the target is dropped (the gate opened); each of them must
 //! complete - woken by the drop glue of the target's `ComputingLockGuard`s - with the
-//! from-scratch value.  Every case runs in a child process (an abort inside
+//! from-scratch value.  One generated case in four is of the family "an executor drops one of its
+//! own reads" (`gen_spec_case`; `Expr::Spec` / `Div` / `Yield` of eng.rs): there the history without
+//! any injected fault is judged as a cancellation scenario of its own (values, no later panic,
+//! only nodes executed that the from-scratch evaluation reaches).  Every case runs in a child process (an abort inside
 //! `WriteBatch::drop`, or a synchronous hang, is observed by the parent, not suffered).
 //!
 //! Variants: `mem` = `InMemoryStorageEngine`; `db` = `DbBacked<MemKv>` (write-behind pipeline;
@@ -521,12 +524,12 @@ struct Comp { what: &'static str, keys: Vec<u32>, h: tokio::task::JoinHandle<Vec
 /// which other callers to start at the gate: (a) the same roots, (b) a key whose computing entry the target owns right
 /// now (parks in `computing_lock_guard`), (c) a dependent of such a key (takes its own entry, then parks in `exit_scc`
 /// on the shared callee), (d) a firewall the target is computing / repairing; started in a seeded order
-fn plan_companions(p: &Program, ks: &[u32], held: &[u32], rng: &mut Rng) -> Vec<(&'static str, Vec<u32>)> {
+fn plan_companions(p: &Program, ks: &[u32], held: &[u32], rng: &mut Rng, askable: &dyn Fn(u32) -> bool) -> Vec<(&'static str, Vec<u32>)> {
     let mut v: Vec<(&'static str, Vec<u32>)> = vec![("same-roots", ks.to_vec())];
     if !held.is_empty() {
         let h = *rng.pick(held);
-        v.push(("owned-key", vec![h]));
-        let deps: Vec<u32> = (0..p.nodes.len() as u32).filter(|d| !held.contains(d) && !matches!(p.kind(*d), Kind::Input) && { let mut r = vec![]; p.nodes[*d as usize].expr.reads(&mut r); r.iter().any(|x| held.contains(x)) }).collect();
+        if askable(h) { v.push(("owned-key", vec![h])); }
+        let deps: Vec<u32> = (0..p.nodes.len() as u32).filter(|d| !held.contains(d) && !matches!(p.kind(*d), Kind::Input) && askable(*d) && { let mut r = vec![]; p.nodes[*d as usize].expr.reads(&mut r); r.iter().any(|x| held.contains(x)) }).collect();
         if !deps.is_empty() { v.push(("dependent-of-owned-key", vec![*rng.pick(&deps)])); }
         if let Some(f) = held.iter().rev().find(|k| p.kind(**k) == Kind::Firewall && **k != h) { v.push(("owned-firewall", vec![*f])); }
     }
@@ -610,10 +613,49 @@ impl<'a> Judge<'a> {
         for e in 0..self.p.nodes.len() as u32 { if self.p.kind(e) == Kind::External && !t.ext.contains_key(&e) { t.ext.insert(e, *self.world.get(&e).unwrap_or(&0)); } }
         from_scratch(self.p, &t, k)
     }
+    fn truth_now(&self) -> Truth {
+        let mut t = self.truth.clone();
+        for e in 0..self.p.nodes.len() as u32 { if self.p.kind(e) == Kind::External && !t.ext.contains_key(&e) { t.ext.insert(e, *self.world.get(&e).unwrap_or(&0)); } }
+        t
+    }
+    /// may this key be asked for now (its from-scratch evaluation does not divide by zero)
+    fn askable(&self, k: u32) -> bool { self.p.spec_targets().is_empty() || safe_value(self.p, &self.truth_now(), k, &mut BTreeSet::new()).is_some() }
+    /// the nodes the from-scratch evaluation of these roots visits
+    fn reach(&self, ks: &[u32]) -> BTreeSet<u32> { let mut r = BTreeSet::new(); let t = self.truth_now(); for k in ks { let _ = safe_value(self.p, &t, *k, &mut r); } r }
     fn ext_now(&self, k: u32) -> i64 { self.truth.ext.get(&k).copied().unwrap_or(*self.world.get(&k).unwrap_or(&0)) }
 }
 
 fn all_keys_round(p: &Program) -> Vec<u32> { (0..p.nodes.len() as u32).rev().collect() }
+
+/// (acyclic programs) the value of `k`, or None if its evaluation divides by zero: a guarded node that may not be asked
+/// for in the present state.  `reach` collects every node the evaluation visits.
+fn safe_value(p: &Program, t: &Truth, k: u32, reach: &mut BTreeSet<u32>) -> Option<i64> {
+    fn ev(p: &Program, t: &Truth, e: &Expr, reach: &mut BTreeSet<u32>) -> Option<i64> {
+        Some(match e {
+            Expr::Const(n) => *n,
+            Expr::Read(k) => safe_value(p, t, *k, reach)?,
+            Expr::Add(a, b) => { let x = ev(p, t, a, reach)?; let y = ev(p, t, b, reach)?; x.wrapping_add(y) }
+            Expr::IfEq(c, n, a, b) => { let x = ev(p, t, c, reach)?; if x == *n { ev(p, t, a, reach)? } else { ev(p, t, b, reach)? } }
+            Expr::SumAll(ks) => { let mut s = 0i64; for k in ks { s = s.wrapping_add(safe_value(p, t, *k, reach)?); } s }
+            Expr::World(k) => *t.ext.get(k).unwrap_or(&0),
+            Expr::Spec(_, b) | Expr::Yield(b) => ev(p, t, b, reach)?,
+            Expr::Div(a, b) => { let x = ev(p, t, a, reach)?; let y = ev(p, t, b, reach)?; if y == 0 { return None; } x.wrapping_div(y) }
+        })
+    }
+    reach.insert(k);
+    match p.kind(k) {
+        Kind::Input => Some(*t.inputs.get(&k).unwrap_or(&0)),
+        Kind::External => Some(*t.ext.get(&k).unwrap_or(&0)),
+        _ => ev(p, t, &p.nodes[k as usize].expr.clone(), reach),
+    }
+}
+/// everything a speculative read may touch: the speculatively read keys and whatever they read
+fn spec_closure(p: &Program) -> BTreeSet<u32> {
+    let mut out = BTreeSet::new();
+    let mut todo = p.spec_targets();
+    while let Some(k) = todo.pop() { if out.insert(k) { let mut r = vec![]; p.nodes[k as usize].expr.reads(&mut r); todo.extend(r); } }
+    out
+}
 
 /// every caller that was in flight when the owner of the entries was cut / panicked has to complete: with the from-scratch
 /// value, or (panic run) with the injected panic.  false = one of them hangs.
@@ -662,6 +704,10 @@ async fn run_fault<V: Variant>(case: &Case, target: usize, fault: &Fault, kv: &M
     async fn round<V: Variant>(engine: &Arc<Engine<V>>, sh: &Arc<Shared>, ks: &[u32], j: &mut Judge<'_>, idx: usize, out: &mut RunOut) -> bool {
         let mut dp = None;
         let te = match drive(engine.clone().tracked(), false, &mut dp).await { Driven::Done(t) => t, _ => { out.fails.push(("C05:hang".into(), format!("op {idx}: tracked() did not complete (phase lock never released)"))); return false; } };
+        let spec_family = !j.p.spec_targets().is_empty();
+        let log_from = sh.log.lock().unwrap().len();
+        let ks: Vec<u32> = ks.iter().copied().filter(|k| j.askable(*k)).collect();
+        let ks = &ks[..];
         for k in ks {
             // an input whose last write was cut may legitimately have either value: the first read decides
             let r = drive(AssertUnwindSafe(query_key(sh, &te, *k)).catch_unwind(), false, &mut dp).await;
@@ -678,6 +724,16 @@ async fn run_fault<V: Variant>(case: &Case, target: usize, fault: &Fault, kv: &M
             }
         }
         drop(te);
+        if spec_family && j.uncertain_in.is_empty() && j.uncertain_ex.is_empty() {
+            // dependency order respected: the engine replays the recorded callees of a node in the order the executor read them
+            // and stops at the first one that changed, so a node is (re-)executed only if the from-scratch evaluation of the
+            // roots reaches it (or a speculative read touches it) - the programs of this family have no firewall / projection
+            let mut allowed = j.reach(ks);
+            allowed.extend(spec_closure(j.p));
+            let ran: BTreeSet<u32> = { let lg = sh.log.lock().unwrap(); lg[log_from.min(lg.len())..].iter().map(|e| e.key).collect() };
+            let extra: Vec<u32> = ran.difference(&allowed).copied().collect();
+            if !extra.is_empty() { out.fails.push(("C05:executor-dropped-read:order".into(), format!("op {idx}: round {ks:?} executed {extra:?}, which the from-scratch evaluation of these roots never reaches in the present state (reached: {:?}): the callees of a node were replayed in another order than its executor read them", allowed))); }
+        }
         true
     }
     // resolve uncertain inputs/externals first by reading them (inputs first: they are leaves)
@@ -743,7 +799,7 @@ async fn run_fault<V: Variant>(case: &Case, target: usize, fault: &Fault, kv: &M
                 let r = if cutting && fault.waiters() {
                     let mut crng = Rng::new(0xC05 ^ (idx as u64) << 20 ^ match fault { Fault::Cut { i, .. } => *i, Fault::CutAt { occ, .. } => *occ, _ => 0 });
                     let (r, c) = drive_gate(async move { let mut vs = vec![]; for k in ks { vs.push(query_key(&sh2, te2, *k).await); } vs }, true,
-                        || { let held = s.held_keys(); out.owned_at_gate = held.clone(); spawn_companions::<V>(&engine, &sh, plan_companions(p, ks, &held, &mut crng)) }, &mut drop_panic).await;
+                        || { let held = s.held_keys(); out.owned_at_gate = held.clone(); spawn_companions::<V>(&engine, &sh, plan_companions(p, ks, &held, &mut crng, &|k| j.askable(k))) }, &mut drop_panic).await;
                     comps = c; r
                 } else { drive(async move { let mut vs = vec![]; for k in ks { vs.push(query_key(&sh2, te2, *k).await); } vs }, cutting, &mut drop_panic).await };
                 out.pauses = s.st.lock().unwrap().labels.clone();
@@ -788,7 +844,7 @@ async fn run_fault<V: Variant>(case: &Case, target: usize, fault: &Fault, kv: &M
                     s.set_mode(fault.mode());
                     let mut crng = Rng::new(0xC05 ^ (idx as u64) << 20 ^ (*pk as u64) << 8);
                     let (r, c) = drive_gate(AssertUnwindSafe(async move { let mut vs = vec![]; for k in ks { vs.push(query_key(&sh2, te2, *k).await); } vs }).catch_unwind(), false,
-                        || { let held = s.held_keys(); out.owned_at_gate = held.clone(); spawn_companions::<V>(&engine, &sh, plan_companions(p, ks, &held, &mut crng)) }, &mut drop_panic).await;
+                        || { let held = s.held_keys(); out.owned_at_gate = held.clone(); spawn_companions::<V>(&engine, &sh, plan_companions(p, ks, &held, &mut crng, &|k| j.askable(k))) }, &mut drop_panic).await;
                     s.set_mode(Mode::Off);
                     s.release();
                     comps = c; r
@@ -940,6 +996,7 @@ async fn run_fault<V: Variant>(case: &Case, target: usize, fault: &Fault, kv: &M
             let mut dp = None;
             let te = e2.clone().tracked().await;
             for k in all_keys_round(p) {
+                if !j.askable(k) { continue; }
                 match drive(AssertUnwindSafe(query_key(&sh2, &te, k)).catch_unwind(), false, &mut dp).await {
                     Driven::Done(Ok(v)) => { let exp = out.last_vals.get(&k).copied().unwrap_or_else(|| j.expected(k)); if v != exp { fail!(if out.held_mode { "C05:persist-value:after-held-continuation" } else { "C05:persist-value" }, "after shutdown and re-open, key {k} = {v}, but the engine answered {exp} before the shutdown (the store misses committed batches)"); break; } }
                     Driven::Done(Err(pl)) => { fail!("C05:persist-panic", "after shutdown and re-open, query {k} panicked: {}", payload_str(&pl).chars().take(160).collect::<String>()); break; }
@@ -1013,6 +1070,55 @@ fn gen_case(r: &mut Rng, idx: u64) -> Case {
     Case { program: p, ops }
 }
 
+/// The "an executor drops one of its own reads" family: node `top` starts a speculative read of a slow node (pending at
+/// its first poll), then reads a guard and - only if the guard is non-zero - a node that divides by the guard; the
+/// speculative read is dropped afterwards (`UndoRegisterCallee` undefused -> `abort_callee`).  The order guard < guarded
+/// read is causal.  The history flips the guard to 0 and back; every later query must return the from-scratch value, must
+/// not panic (the division is never asked for while the guard is 0) and must not execute a node from-scratch never reaches.
+fn gen_spec_case(r: &mut Rng, _idx: u64) -> Case {
+    let rd = |k: u32| Box::new(Expr::Read(k));
+    let mut nodes: Vec<NodeDef> = vec![];
+    let inp = || NodeDef { kind: Kind::Input, default: 0, expr: Expr::Const(0) };
+    let (g, d, sl) = (0u32, 1u32, 2u32);
+    nodes.push(inp()); nodes.push(inp()); nodes.push(inp());
+    // the slow node(s)
+    let slow_kind = if r.chance(1, 4) { Kind::Firewall } else { Kind::Normal };
+    let slow = nodes.len() as u32;
+    nodes.push(NodeDef { kind: slow_kind, default: kind_default(slow_kind), expr: Expr::Yield(if r.chance(1, 2) { rd(sl) } else { Box::new(Expr::Add(rd(sl), Box::new(Expr::Const(1)))) }) });
+    // the guard: the input itself or a node derived from it (same zero-ness)
+    let guard = if r.chance(1, 2) { g } else { let k = nodes.len() as u32; nodes.push(NodeDef { kind: Kind::Normal, default: DEFAULT_NM, expr: Expr::Read(g) }); k };
+    // the guarded node: only valid while the guard is non-zero
+    let x = nodes.len() as u32;
+    nodes.push(NodeDef { kind: Kind::Normal, default: DEFAULT_NM, expr: Expr::Div(if r.chance(1, 2) { rd(d) } else { Box::new(Expr::Add(rd(d), Box::new(Expr::Const(12)))) }, rd(guard)) });
+    // the executor with the dropped read
+    let guarded = Expr::IfEq(rd(guard), 0, Box::new(Expr::Const(0)), rd(x));
+    let body = match r.below(4) {
+        0 => Expr::Spec(slow, Box::new(guarded)),
+        1 => Expr::Add(rd(d), Box::new(Expr::Spec(slow, Box::new(guarded)))),
+        2 => Expr::Spec(slow, Box::new(Expr::Add(rd(sl), Box::new(guarded)))),
+        _ => Expr::Spec(slow, Box::new(Expr::Add(Box::new(guarded), Box::new(Expr::Const(3))))),
+    };
+    let top = nodes.len() as u32;
+    nodes.push(NodeDef { kind: Kind::Normal, default: DEFAULT_NM, expr: body });
+    let root = if r.chance(1, 2) { let k = nodes.len() as u32; nodes.push(NodeDef { kind: Kind::Normal, default: DEFAULT_NM, expr: Expr::Add(rd(top), Box::new(Expr::Const(1))) }); k } else { top };
+    let p = Program { nodes };
+    let mut ops = vec![];
+    ops.push(Op::Session(vec![Write::Set(g, 1 + r.below(3) as i64), Write::Set(d, 6 * (1 + r.below(4) as i64)), Write::Set(sl, r.below(3) as i64)]));
+    ops.push(Op::Round(vec![root]));
+    let mut gv = 1i64;
+    for _ in 0..r.range(2, 3) {
+        gv = if gv != 0 { 0 } else { 1 + r.below(3) as i64 };
+        let mut ws = vec![Write::Set(g, gv)];
+        if r.chance(1, 3) { ws.push(Write::Set(sl, 3 + r.below(3) as i64)); }
+        if r.chance(1, 3) { ws.push(Write::Set(d, 6 * (1 + r.below(4) as i64))); }
+        ops.push(Op::Session(ws));
+        ops.push(Op::Round(vec![root]));
+    }
+    ops.push(Op::Session(vec![Write::Set(g, 7), Write::Set(d, 8), Write::Set(sl, 9)]));
+    ops.push(Op::Round(vec![root]));
+    Case { program: p, ops }
+}
+
 // ------------------------------------------------------------------------------------------------
 // child: all faults of one case
 // ------------------------------------------------------------------------------------------------
@@ -1023,7 +1129,7 @@ fn is_guarded_label(l: &str) -> bool {
     b.starts_with("x.g.") || b.starts_with("sc.") || b.starts_with("c.g.") || b.starts_with("cq.") || b == "p.after" || b.starts_with("bp.g.") || b.starts_with("in.set.g") || b.starts_with("in.ref.g") || b.starts_with("in.commit") || b.starts_with("si.")
 }
 
-fn child_case<V: Variant>(case: &Case, max_cuts: u64, seed: u64, only: Option<(usize, Fault)>, resume_after: Option<String>, trace_every: u64, max_hangs: u64) {
+fn child_case<V: Variant>(case: &Case, max_cuts: u64, seed: u64, only: Option<(usize, Fault)>, resume_after: Option<String>, trace_every: u64, max_hangs: u64, waiters_every: u64) {
     use std::io::Write as _;
     let so = std::io::stdout();
     let emit = |l: String| { let mut o = so.lock(); writeln!(o, "{l}").unwrap(); o.flush().unwrap(); };
@@ -1037,10 +1143,20 @@ fn child_case<V: Variant>(case: &Case, max_cuts: u64, seed: u64, only: Option<(u
     emit(format!("P baseline"));
     let base = run_blocking::<V>(case, usize::MAX, &Fault::Count, false);
     let base_mis: BTreeSet<(usize, u32)> = base.mismatches.iter().map(|m| (m.0, m.1)).collect();
+    // a program whose executors drop reads of their own is a cancellation scenario without any injected fault
+    let spec_family = !case.program.spec_targets().is_empty();
     if !skipping {
-        for (sig, d) in &base.fails { emit(format!("B {}\t{}", esc(sig), esc(d))); }
-        for m in &base.mismatches { emit(format!("B C01:value\top {} key {} got {} expected {}", m.0, m.1, m.2, m.3)); }
+        if spec_family {
+            emit(format!("P baseline\t-"));
+            for (sig, d) in &base.fails { emit(format!("F {}\t{}\tbaseline", esc(&sig.replace("C05:", "C05:executor-dropped-read:").replace("executor-dropped-read:executor-dropped-read:", "executor-dropped-read:")), esc(d))); }
+            for m in &base.mismatches { emit(format!("V C05:executor-dropped-read:value\top {} key {} got {} expected {} (no injected fault: an executor dropped one of its own reads)\tbaseline", m.0, m.1, m.2, m.3)); }
+            emit(format!("R baseline\texecutor-drops-own-read\t{}\t0", base.summary));
+        } else {
+            for (sig, d) in &base.fails { emit(format!("B {}\t{}", esc(sig), esc(d))); }
+            for m in &base.mismatches { emit(format!("B C01:value\top {} key {} got {} expected {}", m.0, m.1, m.2, m.3)); }
+        }
     }
+    if let Some((usize::MAX, _)) = &only { emit("E".into()); return; }
     let mut run_no: u64 = 0;
     // every hang costs its watchdog time: a case in which the engine hung `max_hangs` times is abandoned (reported `K`)
     let mut hangs: u64 = 0;
@@ -1053,7 +1169,8 @@ fn child_case<V: Variant>(case: &Case, max_cuts: u64, seed: u64, only: Option<(u
         emit(format!("P {tag}\t{plabel}"));
         // the model has one innermost frame per task: executors that read several callees concurrently inside one task
         // (unordered groups, `join_all`) are judged by the oracle only
-        let traced = run_no % trace_every == 0 && !case.program.has_unordered();
+        // ... and so are executors that cancel sub-futures of their own (the model drops whole tasks only)
+        let traced = run_no % trace_every == 0 && !case.program.has_unordered() && !spec_family;
         let o = run_blocking::<V>(case, t, f, traced);
         for (sig, d) in &o.fails { emit(format!("F {}\t{}\t{tag}", esc(sig), esc(d))); }
         if o.fails.iter().any(|(sig, _)| sig.starts_with("C05:hang")) { hangs += 1; }
@@ -1103,12 +1220,13 @@ fn child_case<V: Variant>(case: &Case, max_cuts: u64, seed: u64, only: Option<(u
             cuts = keep.into_iter().collect();
         }
         let next_is_session = t + 1 < case.ops.len() && matches!(case.ops[t + 1], Op::Session(_));
-        for i in cuts {
+        for (ci, i) in cuts.into_iter().enumerate() {
             let label = cnt.pauses[i as usize - 1].clone();
             let commit_after = rng.chance(1, 2);
             one(t, &Fault::Cut { i, hold: false, commit_after, requery: false, waiters: false }, Some(&label), &mut skipping);
             // the same cut with other callers in flight that are parked on the entries the target owns at the cut
-            if let Op::Round(_) = &case.ops[t] { one(t, &Fault::Cut { i, hold: false, commit_after: true, requery: false, waiters: true }, Some(&label), &mut skipping); }
+            // (quick tier: at every second of the selected cut points, alternating with the target)
+            if let Op::Round(_) = &case.ops[t] { if (ci as u64 + t as u64) % waiters_every == 0 { one(t, &Fault::Cut { i, hold: false, commit_after: true, requery: false, waiters: true }, Some(&label), &mut skipping); } }
             // the adversarial twin: a guarded continuation stays suspended (it is a spawned task that has not been
             // scheduled yet) while the caller goes on: across the next committed session (round target), or across
             // the commit of the same session (session-call target)
@@ -1176,11 +1294,13 @@ fn main() {
         let case = Case::parse(&text);
         let variant = flag("--variant").unwrap_or("mem".into());
         let max_cuts: u64 = flag("--max-cuts").map(|x| x.parse().unwrap()).unwrap_or(40);
-        let only = flag("--fault").map(|f| { let t: Vec<&str> = f.split_whitespace().collect(); (t[0].parse::<usize>().unwrap(), Fault::parse(&t[1..])) });
+        // `--fault baseline`: the history without an injected fault only (the "executor drops one of its own reads" family)
+        let only = flag("--fault").map(|f| { let t: Vec<&str> = f.split_whitespace().collect(); if t[0] == "baseline" { (usize::MAX, Fault::Count) } else { (t[0].parse::<usize>().unwrap(), Fault::parse(&t[1..])) } });
         let resume = flag("--resume-after");
         let te: u64 = flag("--trace-every").map(|x| x.parse().unwrap()).unwrap_or(1).max(1);
         let mh: u64 = flag("--max-hangs").map(|x| x.parse().unwrap()).unwrap_or(3).max(1);
-        if variant == "db" { child_case::<DbCfg>(&case, max_cuts, a.seed, only, resume, te, mh); } else { child_case::<MemCfg>(&case, max_cuts, a.seed, only, resume, te, mh); }
+        let we: u64 = flag("--waiters-every").map(|x| x.parse().unwrap()).unwrap_or(1).max(1);
+        if variant == "db" { child_case::<DbCfg>(&case, max_cuts, a.seed, only, resume, te, mh, we); } else { child_case::<MemCfg>(&case, max_cuts, a.seed, only, resume, te, mh, we); }
         return;
     }
     parent(a);
@@ -1191,7 +1311,7 @@ fn main() {
 // ------------------------------------------------------------------------------------------------
 struct Failure { sig: String, desc: String, case: String }
 
-fn run_child(exe: &std::path::Path, case_file: &str, variant: &str, max_cuts: u64, seed: u64, fault: Option<&str>, resume: Option<&str>, trace_every: u64, max_hangs: u64, timeout: Duration) -> (Vec<String>, Option<String>) {
+fn run_child(exe: &std::path::Path, case_file: &str, variant: &str, max_cuts: u64, seed: u64, fault: Option<&str>, resume: Option<&str>, trace_every: u64, max_hangs: u64, waiters_every: u64, timeout: Duration) -> (Vec<String>, Option<String>) {
     use std::io::{BufRead, BufReader};
     let mut cmd = std::process::Command::new(exe);
     cmd.args(["--child", case_file, "--variant", variant, "--max-cuts", &max_cuts.to_string(), "--seed", &seed.to_string()]);
@@ -1199,6 +1319,7 @@ fn run_child(exe: &std::path::Path, case_file: &str, variant: &str, max_cuts: u6
     if let Some(r) = resume { cmd.args(["--resume-after", r]); }
     cmd.args(["--trace-every", &trace_every.to_string()]);
     cmd.args(["--max-hangs", &max_hangs.to_string()]);
+    cmd.args(["--waiters-every", &waiters_every.to_string()]);
     cmd.stdout(std::process::Stdio::piped()).stderr(std::process::Stdio::piped());
     let mut ch = cmd.spawn().unwrap();
     let so = ch.stdout.take().unwrap();
@@ -1255,13 +1376,18 @@ fn parent(a: Args) {
     } else {
         if !rest.iter().any(|x| x == "--no-corpus") { if let Ok(rd) = std::fs::read_dir(format!("{}/../corpus", env!("CARGO_MANIFEST_DIR"))) {
             let mut fs: Vec<_> = rd.flatten().map(|e| e.path()).filter(|p| p.file_name().unwrap().to_string_lossy().starts_with("C05-")).collect(); fs.sort();
-            for f in fs {
+            // `--corpus-shard i/n`: this process takes every n-th corpus file (the plugin spreads the corpus over its shards)
+            let (ci, cn): (usize, usize) = flag("--corpus-shard").map(|x| { let mut it = x.split('/'); (it.next().unwrap().parse().unwrap(), it.next().unwrap().parse().unwrap()) }).unwrap_or((0, 1));
+            for (fi, f) in fs.into_iter().enumerate() {
+                if fi % cn != ci { continue; }
                 let text = std::fs::read_to_string(&f).unwrap();
                 let fl = text.lines().find(|l| l.starts_with("#fault ")).map(|l| l[7..].to_string());
                 cases.push((f.file_name().unwrap().to_string_lossy().to_string(), Case::parse(&text.lines().filter(|l| !l.starts_with('#')).collect::<Vec<_>>().join("\n")), fl));
             }
         } }
         for i in 0..n_cases { cases.push((format!("gen{i}"), gen_case(&mut rng, i), None)); }
+        // one case of the "executor drops one of its own reads" family per three generated ones
+        for i in 0..(n_cases + 2) / 3 { cases.push((format!("spec{i}"), gen_spec_case(&mut rng, i), None)); }
     }
     let mut failures: Vec<Failure> = vec![];
     let mut distinct: BTreeSet<u64> = BTreeSet::new();
@@ -1280,13 +1406,14 @@ fn parent(a: Args) {
         if case.program.nodes.iter().any(|n| n.kind == Kind::Projection) { *dist.entry("cases_with_projection".into()).or_default() += 1; }
         if case.program.nodes.iter().any(|n| n.kind == Kind::External) { *dist.entry("cases_with_external".into()).or_default() += 1; }
         if case.program.has_unordered() { *dist.entry("cases_with_unordered_group".into()).or_default() += 1; }
+        if !case.program.spec_targets().is_empty() { *dist.entry("cases_with_read_dropped_by_executor".into()).or_default() += 1; }
         for v in &variants {
             let (v_use, fault_s): (String, Option<String>) = match fl { Some(f) => { let mut it = f.splitn(2, ' '); (it.next().unwrap().to_string(), Some(it.next().unwrap().to_string())) } None => (v.clone(), None) };
             if fl.is_some() && v != &variants[0] { continue; }
             let mut resume: Option<String> = None;
             let mut restarts = 0;
             loop {
-            let (lines, died) = run_child(&exe, &cf, &v_use, max_cuts, a.seed.wrapping_add(ci as u64), fault_s.as_deref(), resume.as_deref(), if fault_s.is_some() { 1 } else { trace_every }, if hang_failures >= 4 { 1 } else { 3 }, Duration::from_secs(if quick { 240 } else { 900 }));
+            let (lines, died) = run_child(&exe, &cf, &v_use, max_cuts, a.seed.wrapping_add(ci as u64), fault_s.as_deref(), resume.as_deref(), if fault_s.is_some() { 1 } else { trace_every }, if hang_failures >= 4 { 1 } else { 3 }, if quick { 2 } else { 1 }, Duration::from_secs(if quick { 240 } else { 900 }));
             let mut last_p = String::new();
             let mut last_label = String::new();
             let mut last_run = String::new();
@@ -1303,7 +1430,7 @@ fn parent(a: Args) {
                     "R" => {
                         evals += 1;
                         let f: Vec<&str> = body.split('\t').collect();
-                        let kind = if f[0].contains("panicw") { "panic-with-waiters" } else if f[0].contains("panic") { "panic" } else if f[0].contains("waiters") { "cut-with-waiters" } else if f[0].contains("requery") { "cut-requery" } else if f[0].contains("hold") { "cut-hold" } else { "cut" };
+                        let kind = if f[0] == "baseline" { "without-fault(executor-drops-own-read)" } else if f[0].contains("panicw") { "panic-with-waiters" } else if f[0].contains("panic") { "panic" } else if f[0].contains("waiters") { "cut-with-waiters" } else if f[0].contains("requery") { "cut-requery" } else if f[0].contains("hold") { "cut-hold" } else { "cut" };
                         *dist.entry(format!("{v_use}:runs_{kind}")).or_default() += 1;
                         let lab = f[1].split('@').next().unwrap().to_string();
                         *label_hits.entry(lab.clone()).or_default() += 1;
